@@ -14,7 +14,8 @@ class RawPeer {
   std::string inbuf;
   ~RawPeer();
   // Creates the socketpair and the DBusConnection, drives the SASL exchange to completion.  nullptr on failure.
-  DBusConnection* connect(bool agree_unix_fd = false);
+  // virtual_clock=false leaves time real (multi-threaded targets).
+  DBusConnection* connect(bool agree_unix_fd = false, bool virtual_clock = true);
   void write_bytes(const std::string& b);
   void write_msg(const Msg& m) { write_bytes(encode_msg(m)); }
   std::vector<RecvFrame> read_frames();       // non-blocking
